@@ -20,7 +20,7 @@ pub struct Adv {
 }
 
 const BASE_SCHEMA: &str = r#"
-type Query { obj: Obj  face: Face  uni: Uni  lonely: Lonely  deep: Obj  inp(a: InA, c: InC): Int }
+type Query { obj: Obj  face: Face  uni: Uni  lonely: Lonely  deep: Obj  inp(a: InA, c: InC, t: InTail, u: InTail2): Int }
 type Obj implements Face { id: ID  name: String  next: Obj  nexts: [Obj!]!  face: Face  uni: Uni }
 type Other implements Face { id: ID  name: String  next: Obj  face: Face }
 interface Face { id: ID  name: String  next: Obj  face: Face }
@@ -30,6 +30,8 @@ input InA { b: InB!  x: Int }
 input InB { a: InA!  y: [InB!]! }
 input InC { c: InC  cs: [InC]  d: InD }
 input InD @oneOf { c: InC  d: InD  n: Int }
+input InTail { a: InA  cs: [InC!]  x: Int }
+input InTail2 { t: InTail!  d: InD }
 "#;
 
 /// The tape-decoded adversarial grammar (also used by the libFuzzer target).
@@ -64,15 +66,31 @@ pub fn gen_adversarial(t: &mut Tape, world_tape: &[u8], stats: &mut GenStats) ->
                 }
                 q.push_str("}\n");
             }
+            // optionally a tail: fragments that are not on the cycle but lead into it
+            let tail_len = t.below(3);
+            let mut entry = "F0".to_string();
+            for k in 0..tail_len {
+                let tn = if pk == "object" { "" } else { "__typename " };
+                let body = if via_field && t.chance(50) {
+                    let f = if pk == "object" { "next" } else { "face" };
+                    let inner_tn = if f == "face" { "__typename " } else { "" };
+                    format!("{} {{ {}...{} }}", f, inner_tn, entry)
+                } else {
+                    format!("...{}", entry)
+                };
+                let _ = write!(q, "fragment T{} on {} {{ {}{} }}\n", k, on, tn, body);
+                entry = format!("T{}", k);
+            }
             let root = match pk {
                 "object" => "obj",
                 "interface" => "face",
                 _ => "uni",
             };
             let root_tn = if pk == "object" { "" } else if t.chance(70) { "__typename " } else { "" };
-            let _ = write!(q, "query Q {{ {} {{ {}...F0 }} }}\n", root, root_tn);
+            let _ = write!(q, "query Q {{ {} {{ {}...{} }} }}\n", root, root_tn, entry);
             // every fragment of a typename-less cycle lacks it; `with_typename` puts it at least in F0
-            Adv { kind: "spread_cycle", schema: BASE_SCHEMA.into(), ext: "graphql", query: q, cycle: Some((pk, with_typename && any_typename)), nontrivial: true }
+            let has_tn = (with_typename && any_typename) || (tail_len > 0 && pk != "object");
+            Adv { kind: "spread_cycle", schema: BASE_SCHEMA.into(), ext: "graphql", query: q, cycle: Some((pk, has_tn)), nontrivial: true }
         }
         1 => {
             // deep selection nesting (graphql-parser's own limit is 50 brackets)
@@ -101,8 +119,8 @@ pub fn gen_adversarial(t: &mut Tape, world_tape: &[u8], stats: &mut GenStats) ->
         }
         3 => {
             // input cycles incl. non-null ones
-            let v = *t.pick(&["$a: InA", "$a: InA!", "$c: InC", "$c: [InC!]!", "$d: InD", "$a: InA, $c: InC, $d: InD!"]);
-            let args = if v.contains("$a") && v.contains("$c") { "a: $a, c: $c" } else if v.contains("$a") { "a: $a" } else if v.contains("$c: [") { "" } else if v.contains("$c") { "c: $c" } else { "" };
+            let v = *t.pick(&["$a: InA", "$a: InA!", "$c: InC", "$c: [InC!]!", "$d: InD", "$a: InA, $c: InC, $d: InD!", "$t: InTail", "$t: InTail!", "$u: InTail2", "$u: [InTail2]", "$t: InTail, $a: InA"]);
+            let args = if v.contains("$a") && v.contains("$c") { "a: $a, c: $c" } else if v.contains("$t") && v.contains("$a") { "t: $t, a: $a" } else if v.contains("$a") { "a: $a" } else if v.contains("$c: [") || v.contains("$u: [") { "" } else if v.contains("$c") { "c: $c" } else if v.contains("$t") { "t: $t" } else if v.contains("$u") { "u: $u" } else { "" };
             let query = format!("query Q({}) {{ inp{} }}\n", v, if args.is_empty() { String::new() } else { format!("({})", args) });
             Adv { kind: "input_cycle", schema: BASE_SCHEMA.into(), ext: "graphql", query, cycle: None, nontrivial: true }
         }
